@@ -238,6 +238,21 @@ def number_cases(rng, n, rows=(("0b", 2, 32), ("0x", 16, 12), ("0o", 8, 12))):
         mant = digits[:point] + ("." + digits[point:] if point < len(digits) else "")
         spelling = mant + rng.choice("eE") + (rng.choice(["", "+"]) if e >= 0 else "") + str(e)
         out.append((spelling, ("real", Fraction(int(digits)) * Fraction(10) ** (e - (len(digits) - point)))))
+    # 16 and 17 significant digits (where the shortest round-trip digits need not be the spelling's), halfway cases, the edges
+    for _ in range(max(20, n)):
+        nd = rng.choice([16, 17, 17, 18, 19])
+        digits = str(rng.randrange(1, 10)) + "".join(rng.choice("0123456789") for _ in range(nd - 1))
+        e = rng.choice([rng.randrange(-20, 21), rng.randrange(-320, 292)])
+        out.append(("%s.%se%d" % (digits[0], digits[1:], e), ("real", Fraction(int(digits)) * Fraction(10) ** (e - (nd - 1)))))
+    for sp_ in ("0.30000000000000004", "0.1000000000000000055511151231257827", "9007199254740993.0", "9007199254740995.0", "1.7976931348623158e308",
+                "2.2250738585072011e-308", "2.4703282292062328e-324", "2.4703282292062327e-324", "4.9406564584124654e-324", "8.41e21", "5e22", "1.0000000000000002",
+                "1.00000000000000011102230246251565404236316680908203125", "1.00000000000000011102230246251565404236316680908203126", "123456789012345678.0"):
+        if "e" in sp_:
+            m_, e_ = sp_.split("e")
+        else:
+            m_, e_ = sp_, "0"
+        ip_, _, fp_ = m_.partition(".")
+        out.append((sp_, ("real", Fraction(int(ip_ + fp_)) * Fraction(10) ** (int(e_) - len(fp_)))))
     for sp_ in ("1.1e-5", "6.02e23", "1.5e300", "2.2250738585072014e-308", "4.9e-324", "1e23", "9.007199254740993e15", "0.1e1", "123.456e-7", "3.14159e0"):
         m_, e_ = sp_.split("e")
         ip_, _, fp_ = m_.partition(".")
